@@ -6,11 +6,14 @@ import (
 	"encoding/binary"
 	"encoding/json"
 	"fmt"
+	"os"
+	"path/filepath"
 	"sort"
 	"strconv"
 	"strings"
 
 	"github.com/go-text/typesetting/font"
+	ot "github.com/go-text/typesetting/font/opentype"
 	"github.com/go-text/typesetting/font/opentype/tables"
 	"github.com/go-text/typesetting/fontscan"
 	"github.com/go-text/typesetting/language"
@@ -772,6 +775,258 @@ func c11RuneSet(r *mc.Reporter, depth int) {
 	r.OutcomeStr(fmt.Sprintf("runeset-states-%d", states), true)
 }
 
+// ---- (e) directory scans: a file scanned after another file -----------------------------------------
+
+// The directory scan re-uses its table buffers from one file to the next. Every corpus file is scanned alone and
+// then as the second file of a directory whose first file is one of three fonts with rich tables: the recorded
+// footprints (coverage, scripts, family, aspect) must not depend on the company.
+var c11Predecessors = []string{"ot/common/Roboto-BoldItalic.ttf", "ot/common/NotoSansArabic.ttf", "ot/common/SourceSans-VF-HVAR.ttf"}
+
+func c11Company(r *mc.Reporter, sh, nsh int, tier string) {
+	files := corpus.Files()
+	root, err := os.MkdirTemp(mc.Scratch(), "c11company")
+	if err != nil {
+		r.Incomplete("no scratch directory")
+		return
+	}
+	defer os.RemoveAll(root)
+	scan := func(dir string) map[string]uint64 {
+		idx, err := fontscan.VerifScan(nil, fontscan.VerifIndex{}, dir)
+		out := map[string]uint64{}
+		if err != nil {
+			return out
+		}
+		for _, f := range idx.Files() {
+			fps := append([]fontscan.Footprint(nil), f.Footprints...)
+			for i := range fps {
+				fps[i].Location.File = ""
+			}
+			out[filepath.Base(f.Path)] = mc.DeepHash(&fps)
+		}
+		return out
+	}
+	for j := sh; j < len(files); j += nsh {
+		if r.Expired() {
+			r.Incomplete("deadline in directory scans")
+			return
+		}
+		f := &files[j]
+		if limit := 64 << 10; (tier == "quick" && len(f.Data) > limit) || len(f.Data) > 4<<20 {
+			continue
+		}
+		ext := filepath.Ext(f.Name)
+		// the file itself, and the file without each table the scanner reads as optional (the table buffer then keeps what the
+		// previous file left in it)
+		variants := [][]byte{f.Data}
+		vnames := []string{""}
+		if lds := corpus.Loaders(f); len(lds) == 1 && (ext == ".ttf" || ext == ".otf") {
+			for _, drop := range []string{"OS/2", "name", "head", "hhea", "fvar"} {
+				tag := ot.MustNewTag(drop)
+				if !lds[0].HasTable(tag) {
+					continue
+				}
+				var tbs []ot.Table
+				for _, t := range lds[0].Tables() {
+					if t == tag {
+						continue
+					}
+					if raw, err := lds[0].RawTable(t); err == nil {
+						tbs = append(tbs, ot.Table{Tag: t, Content: raw})
+					}
+				}
+				variants = append(variants, ot.WriteTTF(tbs))
+				vnames = append(vnames, " without "+drop)
+			}
+		}
+		for vi, data := range variants {
+			fdata, fname := data, f.Name+vnames[vi]
+			alone := filepath.Join(root, fmt.Sprintf("alone%d_%d", j, vi))
+			os.MkdirAll(alone, 0o755)
+			os.WriteFile(filepath.Join(alone, "b_font"+ext), fdata, 0o644)
+			var want map[string]uint64
+			cs := &c11case{Kind: "company", File: f.Name}
+			if !r.Guard("C11", cs, func() { want = scan(alone) }) {
+				continue
+			}
+			for pi, pn := range c11Predecessors {
+				p := corpus.Get(pn)
+				if p == nil {
+					continue
+				}
+				r.Eval()
+				dir := filepath.Join(root, fmt.Sprintf("pair%d_%d_%d", j, vi, pi))
+				os.MkdirAll(dir, 0o755)
+				os.WriteFile(filepath.Join(dir, "a_font"+filepath.Ext(pn)), p.Data, 0o644)
+				os.WriteFile(filepath.Join(dir, "b_font"+ext), fdata, 0o644)
+				var got map[string]uint64
+				cs := &c11case{Kind: "company", File: f.Name, First: pi}
+				if !r.Guard("C11", cs, func() { got = scan(dir) }) {
+					continue
+				}
+				if got["b_font"+ext] != want["b_font"+ext] {
+					r.Violation("C11:scan:footprint-depends-on-previous-file", cs, fmt.Sprintf("%s: the footprints recorded when it is scanned after %s differ from the ones recorded when it is scanned alone", fname, pn))
+				}
+				r.OutcomeStr(fmt.Sprintf("company %d", want["b_font"+ext]%13), len(want) > 0)
+				os.RemoveAll(dir)
+			}
+			os.RemoveAll(alone)
+		}
+	}
+}
+
+// c11CmapKinds: the smallest corpus file (single face, <= 64 KiB) for every concrete character map implementation
+var c11kindsCache []*corpus.File
+
+func c11CmapKinds() []*corpus.File {
+	if c11kindsCache != nil {
+		return c11kindsCache
+	}
+	seen := map[string]bool{}
+	files := corpus.Files()
+	for j := range files {
+		f := &files[j]
+		ext := filepath.Ext(f.Name)
+		if len(f.Data) > 64<<10 || (ext != ".ttf" && ext != ".otf") {
+			continue
+		}
+		lds := corpus.Loaders(f)
+		if len(lds) != 1 {
+			continue
+		}
+		var kind string
+		func() {
+			defer func() { recover() }()
+			if ft, err := font.NewFont(lds[0]); err == nil && ft.Cmap != nil {
+				kind = fmt.Sprintf("%T", ft.Cmap)
+			}
+		}()
+		if kind != "" && !seen[kind] {
+			seen[kind] = true
+			c11kindsCache = append(c11kindsCache, f)
+		}
+	}
+	return c11kindsCache
+}
+
+// c11SymbolFont builds a legacy symbol font: the first representative of c11CmapKinds with its character map replaced
+// by a Microsoft Symbol (3,0) format 4 subtable mapping U+F020..U+F07E to glyphs 1..95
+func c11SymbolFont(dropOS2 bool) []byte {
+	if len(c11CmapKinds()) == 0 {
+		return nil
+	}
+	ld := corpus.Loaders(c11CmapKinds()[0])[0]
+	cm := []byte{0, 0, 0, 1, 0, 3, 0, 0, 0, 0, 0, 12,
+		0, 4, 0, 32, 0, 0, 0, 4, 0, 4, 0, 1, 0, 0,
+		0xF0, 0x7E, 0xFF, 0xFF, 0, 0, 0xF0, 0x20, 0xFF, 0xFF, 0x0F, 0xE1, 0, 1, 0, 0, 0, 0}
+	var tbs []ot.Table
+	for _, t := range ld.Tables() {
+		raw, err := ld.RawTable(t)
+		if err != nil || (dropOS2 && t == ot.MustNewTag("OS/2")) {
+			continue
+		}
+		if t == ot.MustNewTag("cmap") {
+			raw = cm
+		}
+		tbs = append(tbs, ot.Table{Tag: t, Content: raw})
+	}
+	return ot.WriteTTF(tbs)
+}
+
+// c11CompanyAll: one representative per character map implementation (whole, and without each optional table)
+// scanned after EVERY corpus file: what the previous file leaves in the scan buffers must not matter
+func c11CompanyAll(r *mc.Reporter, sh, nsh int, tier string) {
+	files := corpus.Files()
+	root, err := os.MkdirTemp(mc.Scratch(), "c11companyall")
+	if err != nil {
+		r.Incomplete("no scratch directory")
+		return
+	}
+	defer os.RemoveAll(root)
+	scan := func(dir string) uint64 {
+		idx, err := fontscan.VerifScan(nil, fontscan.VerifIndex{}, dir)
+		if err != nil {
+			return 0
+		}
+		for _, f := range idx.Files() {
+			if strings.HasPrefix(filepath.Base(f.Path), "b_font") {
+				fps := append([]fontscan.Footprint(nil), f.Footprints...)
+				for i := range fps {
+					fps[i].Location.File = ""
+				}
+				return mc.DeepHash(&fps)
+			}
+		}
+		return 1
+	}
+	type succ struct {
+		name string
+		data []byte
+		want uint64
+	}
+	var succs []succ
+	for _, f := range c11CmapKinds() {
+		ld := corpus.Loaders(f)[0]
+		succs = append(succs, succ{name: f.Name, data: f.Data})
+		for _, drop := range []string{"OS/2", "name", "head", "hhea", "fvar"} {
+			tag := ot.MustNewTag(drop)
+			if !ld.HasTable(tag) {
+				continue
+			}
+			var tbs []ot.Table
+			for _, t := range ld.Tables() {
+				if raw, err := ld.RawTable(t); err == nil && t != tag {
+					tbs = append(tbs, ot.Table{Tag: t, Content: raw})
+				}
+			}
+			succs = append(succs, succ{name: f.Name + " without " + drop, data: ot.WriteTTF(tbs)})
+		}
+	}
+	// a synthetic legacy symbol font (Microsoft Symbol cmap U+F020..U+F07E): the font page of OS/2 decides how its
+	// character map is remapped, so it is the one kind of font for which a stale OS/2 buffer changes the coverage
+	for _, dropOS2 := range []bool{false, true} {
+		if data := c11SymbolFont(dropOS2); data != nil {
+			name := "synthetic symbol font"
+			if dropOS2 {
+				name += " without OS/2"
+			}
+			succs = append(succs, succ{name: name, data: data})
+		}
+	}
+	for i := range succs {
+		dir := filepath.Join(root, fmt.Sprintf("alone%d", i))
+		os.MkdirAll(dir, 0o755)
+		os.WriteFile(filepath.Join(dir, "b_font.ttf"), succs[i].data, 0o644)
+		cs := &c11case{Kind: "companyall", File: succs[i].name}
+		r.Guard("C11", cs, func() { succs[i].want = scan(dir) })
+		os.RemoveAll(dir)
+	}
+	r.Max("max_successors(cmap kinds x dropped tables)", int64(len(succs)))
+	for j := sh; j < len(files); j += nsh {
+		if r.Expired() {
+			r.Incomplete("deadline in directory scans (all predecessors)")
+			return
+		}
+		p := &files[j]
+		if (tier == "quick" && len(p.Data) > 64<<10) || len(p.Data) > 4<<20 {
+			continue
+		}
+		for i := range succs {
+			r.Eval()
+			dir := filepath.Join(root, fmt.Sprintf("p%d_%d", j, i))
+			os.MkdirAll(dir, 0o755)
+			os.WriteFile(filepath.Join(dir, "a_font"+filepath.Ext(p.Name)), p.Data, 0o644)
+			os.WriteFile(filepath.Join(dir, "b_font.ttf"), succs[i].data, 0o644)
+			cs := &c11case{Kind: "companyall", File: succs[i].name, First: j}
+			var got uint64
+			if r.Guard("C11", cs, func() { got = scan(dir) }) && got != succs[i].want {
+				r.Violation("C11:scan:footprint-depends-on-previous-file", cs, fmt.Sprintf("%s: the footprints recorded when it is scanned after %s differ from the ones recorded when it is scanned alone", succs[i].name, p.Name))
+			}
+			r.OutcomeStr(fmt.Sprintf("companyall %d", i%7), true)
+			os.RemoveAll(dir)
+		}
+	}
+}
+
 // ---- driver ---------------------------------------------------------------------------------------
 
 const c11CorpusShards = 48
@@ -787,6 +1042,9 @@ func c11Shards(tier string) []string {
 	}
 	for i := 0; i < c11CorpusShards; i++ {
 		s = append(s, fmt.Sprintf("corpus:%d", i))
+	}
+	for i := 0; i < 16; i++ {
+		s = append(s, fmt.Sprintf("company:%d", i))
 	}
 	return s
 }
@@ -810,6 +1068,9 @@ func c11Run(tier, shard string, r *mc.Reporter) {
 		c11RunF4(r, sh, 16, tier)
 	case "scripts":
 		c11Scripts(r, sh, 8)
+	case "company":
+		c11Company(r, sh, 16, tier)
+		c11CompanyAll(r, sh, 16, tier)
 	case "corpus":
 		files := corpus.Files()
 		for j := sh; j < len(files); j += c11CorpusShards {
@@ -835,6 +1096,14 @@ func c11Replay(raw json.RawMessage, r *mc.Reporter) {
 		return
 	}
 	switch c.Kind {
+	case "companyall":
+		c11CompanyAll(r, c.First, len(corpus.Files()), "thorough")
+	case "company":
+		for j, f := range corpus.Files() {
+			if f.Name == c.File {
+				c11Company(r, j, len(corpus.Files()), "thorough")
+			}
+		}
 	case "corpus":
 		name := c.File[:strings.LastIndexByte(c.File, '#')]
 		if f := corpus.Get(name); f != nil {
@@ -865,7 +1134,7 @@ func init() {
 		ID: "C11", Level: "exploration",
 		Rule: "(a) every corpus face (quick: files <= 64 KiB): all 0x110000 code points: Lookup vs the map built from Iter (each rune once) vs RuneRanges vs the coverage recorded by both footprint paths (AddFace and file scan) vs scripts of the mapped runes; " +
 			"(b) synthetic subtables through ProcessCmap: format 4 - all sorted disjoint lists of <= 2 (thorough 3) segments over 9 boundary code points x 5 deltas (incl. wrap-around) x glyph-array modes (non-zero, zero entries, all zero) x sentinel segment {absent, idRangeOffset 0, 0xFFFF}; formats 6/10 with 0..3 entries incl. glyph 0; formats 12/13 with <= 3 groups over 8 boundary code points incl. abutting and one-point overlap; format 0; symbol and legacy Arabic remapping; each compared with a naive interpretation of the subtable; " +
-			"(c) scriptsFromRanges on all sorted lists of <= 3 ranges over the end points (Start-1, Start, End, End+1) of the first 5 / last 2 script ranges; (d) RuneSet: BFS over Add/Delete histories on 8 boundary runes to depth 4 (thorough 5) vs map[rune]bool incl. includes and serialization. Non-trivial = at least one mapped rune",
+			"(e) every corpus file (and the file without each of OS/2, name, head, hhea, fvar) scanned by the directory scanner alone and after each of 3 fonts, and one representative per character map implementation (whole and without each optional table) scanned after every corpus file: same footprints; (c) scriptsFromRanges on all sorted lists of <= 3 ranges over the end points (Start-1, Start, End, End+1) of the first 5 / last 2 script ranges; (d) RuneSet: BFS over Add/Delete histories on 8 boundary runes to depth 4 (thorough 5) vs map[rune]bool incl. includes and serialization. Non-trivial = at least one mapped rune",
 		Assumptions: []string{"a rune mapped to glyph 0 may be reported either as unmapped or as mapped to 0 (both conventions exist); only the agreement between Lookup, Iter, RuneRanges and coverage is judged for it",
 			"unsorted or overlapping format 4 segments are outside the OpenType specification and are not generated"},
 		Shards: c11Shards, Run: c11Run, Replay: c11Replay,
